@@ -1,14 +1,21 @@
 #!/bin/bash
 # usage: tools/seedtest.sh <patch.diff> <tier> <prop> [<prop>...]
 # Applies a seeded change to /repo, runs the given checks, and ALWAYS reverts.
-patch=$1; tier=$2; shift 2
-cd /repo || exit 9
-if [ -n "$(git status --porcelain --untracked-files=no)" ]; then echo "repo dirty"; exit 9; fi
+# With SEED_TREE=<scratch worktree of /repo outside /repo and /verif> the change is applied there instead and the
+# checks analyse that tree (VERIF_REPO); used to run several seeded changes concurrently.
+patch=$(readlink -f "$1"); tier=$2; shift 2
+tree=${SEED_TREE:-/repo}
+cd $tree || exit 9
+if [ -n "$(git status --porcelain --untracked-files=no)" ]; then echo "tree dirty"; exit 9; fi
 git apply "$patch" || { echo "patch does not apply"; exit 9; }
-trap 'git -C /repo checkout -- . ' EXIT
+trap "git -C $tree checkout -- ." EXIT
 cd /verif
 for p in "$@"; do
-  out=$(VERIF_EVIDENCE_DIR=/tmp/seed_evidence VERIF_TIER=$tier ./vf check $p --tier $tier 2>&1)
+  if [ "$tree" = /repo ]; then
+    out=$(VERIF_EVIDENCE_DIR=/tmp/seed_evidence VERIF_TIER=$tier ./vf check $p --tier $tier 2>&1)
+  else
+    out=$(VERIF_REPO=$tree VERIF_EVIDENCE_DIR=/tmp/seed_evidence/$(basename $tree) VERIF_TIER=$tier ./vf check $p --tier $tier 2>&1)
+  fi
   rc=$?
   echo "== $p rc=$rc $(echo "$out" | grep -c '^VIOLATION') violation line(s)"
   echo "$out" | grep -E "^VIOLATION|^  obligation|^INCONCLUSIVE|^\[" | head -8
